@@ -21,3 +21,20 @@ Proof.
   - field_simplify_eq; [hring|lra..].
   - field_simplify_eq; [hring|lra..].
 Qed.
+
+(* the vectorised copy of the same closed form (N-sample constructor; first row of a 2-row input) *)
+Lemma saam_vec_exact w x y z sa sm cd sd : general_position w x y z -> dip cd sd -> 0 < sa -> 0 < sm ->
+  exists l, C04_saam_vec_R w x y z sa sm cd sd = Val l /\ pm_eq l (qconj [w;x;y;z]).
+Proof.
+  intros G [Hd Hc] Hsa Hsm. destruct (gp_ne0 _ _ _ _ G) as (Nw & Nx & Ny & Nz). destruct G as (Hq' & _).
+  assert (Hq := Hq'). unfold unit4 in Hq. unfold C04_saam_vec_R. cbv zeta. orient_unit.
+  do 3 (root1 sa sm cd).
+  eexists. split; [reflexivity|].
+  unfold pm_eq. cbv [qconj qneg e nth].
+  apply (normalise_scaled (4 * cd * x)); [unfold unit4 in *; lra | .. ].
+  - nra.
+  - field_simplify_eq; [hring|lra..].
+  - field_simplify_eq; [hring|lra..].
+  - field_simplify_eq; [hring|lra..].
+  - field_simplify_eq; [hring|lra..].
+Qed.
